@@ -243,14 +243,32 @@ def run_slave_ops(desc, ops):
             elif op[0] == 'get':
                 outs.append(as_nat_list(s.getValues(op[1], op[2], op[3])))
             elif op[0] == 'set':
-                s.setValues(op[1], op[2], list(op[3]))
+                # the property's write clause, checked on the real context: a range it accepts is written, visible to the next
+                # read, and no exception comes out of the write
+                try:
+                    accepted = op[1] in LETTER and bool(s.validate(op[1], op[2], len(op[3]))) and len(op[3]) >= 1
+                except Exception:  # noqa
+                    accepted = False
+                try:
+                    s.setValues(op[1], op[2], list(op[3]))
+                except Exception as e:  # noqa
+                    if accepted and run_slave_ops.write_fault is None:
+                        run_slave_ops.write_fault = (len(outs), 'raised ' + errkind(e))
+                    raise
                 outs.append(None)
+                if accepted and run_slave_ops.write_fault is None:
+                    back = as_nat_list(s.getValues(op[1], op[2], len(op[3])))
+                    if back != [int(v) for v in op[3]]:
+                        run_slave_ops.write_fault = (len(outs) - 1, 'read back %r' % (back[:6],))
             elif op[0] == 'reset':
                 s.reset()
                 outs.append(None)
         except Exception as e:  # noqa
             outs.append({'err': errkind(e)})
     return outs, [dump_block(b) for b in blocks]
+
+
+run_slave_ops.write_fault = None
 
 
 def slave_cases(ctx, rep, n):
@@ -279,8 +297,12 @@ def slave_cases(ctx, rep, n):
         cases.append((d, ops))
     answers = ctx.driver.query([{'op': 'slave', 'ctx': d, 'ops': ops} for d, ops in cases])
     for (d, ops), ans in zip(cases, answers):
+        run_slave_ops.write_fault = None
         outs, dumps = run_slave_ops(d, ops)
         case = {'kind': 'slave', 'ctx': d, 'ops': ops}
+        if run_slave_ops.write_fault is not None:
+            rep.violation('a write to a range the slave context accepts was not applied (or raised)', case,
+                          op_index=run_slave_ops.write_fault[0], observed=run_slave_ops.write_fault[1])
         rep.case(case, nontrivial=any(o is True or (isinstance(o, list) and o) for o in outs), tag='slave')
         rep.sample(case, cap=4)
         rep.compare(case, {'outs': outs, 'dump': dumps}, {'outs': ans['outs'], 'dump': ans['dump']}, 'slave ctx ops vs Model.Store')
